@@ -11,7 +11,9 @@
 (***************************************************************************)
 EXTENDS Forest, Json
 
-CONSTANTS MaxN, Acts, MaxPerm
+CONSTANTS MaxN, Acts, MaxPerm,
+          MinN,     \* states: MinN <= n <= MaxN
+          MaxReq    \* at most this many leaves per request set (wide configurations)
 
 VARIABLES n, live
 vars == <<n, live>>
@@ -29,7 +31,8 @@ Orders(S) ==
   ELSE LET a == AscSeq(S) IN {a, Reverse(a), Tail(a) \o <<Head(a)>>}
 TwoOrders(S) == LET a == AscSeq(S) IN {a, Reverse(a)}
 
-Init == n \in 0..MaxN /\ live \in SUBSET (0..(n-1))
+Init == n \in MinN..MaxN /\ live \in SUBSET (0..(n-1))
+Small(S) == Cardinality(S) <= MaxReq
 
 Base == [n |-> n, roots |-> Roots(n, live)]
 
@@ -43,7 +46,8 @@ PosSet(nds, S) == {PosOfIn(nds, s) : s \in S}
 AddProofAct ==
   /\ "addproof" \in Acts
   /\ \E A \in SUBSET live \ {{}}, B \in SUBSET live \ {{}} :
-       \E oa \in TwoOrders(A), ob \in TwoOrders(B) :
+       /\ Small(A) /\ Small(B)
+       /\ \E oa \in TwoOrders(A), ob \in TwoOrders(B) :
           LET nds  == Nodes(n, live)
               u    == AscSeq(A \cup B)
               step == [a |-> "addproof", as |-> oa, b |-> ob, n |-> n, roots |-> Roots(n, live),
@@ -62,6 +66,7 @@ SubsetAct ==
   /\ \E S \in SUBSET live \ {{}} :
        \E os \in TwoOrders(S) :
           \E W \in SUBSET live \ {{}} :
+             /\ Small(S) /\ Small(W)
              /\ Cardinality(W \ S) <= 1
              /\ \E ow \in Orders(W) :
                   LET nds  == Nodes(n, live)
@@ -94,7 +99,8 @@ MissingMap(x, nds, A, B) ==
 MissingAct ==
   /\ "missing" \in Acts
   /\ \E A \in SUBSET live, B \in SUBSET live \ {{}} :
-       \E oa \in TwoOrders(A), ob \in TwoOrders(B) :
+       /\ Small(A) /\ Small(B)
+       /\ \E oa \in TwoOrders(A), ob \in TwoOrders(B) :
           LET nds  == Nodes(n, live)
               mf   == SortPos(MissingFn(n, nds, A, B))
               mm   == SortPos(MissingMap(n, nds, A, B))
